@@ -335,7 +335,51 @@ def group_c39(g, n):
     return out
 
 
-GROUPS = {"C02": group_c02, "C03": group_c03, "C05": group_c05, "C06": group_c06, "C09": group_c09, "C39": group_c39}
+def group_c10(g, n):
+    """operands carrying about three times more bits than the working precision, through the public
+    entry points, with the second operand an mpf, an int (powers of two, +-1, small) or a float"""
+    r = g.r
+    out = []
+    while len(out) < n:
+        p = r.choice([10, 24, 53, 53, 100])
+        nb = 3 * p + r.randint(0, 40)
+        x = gen.mk(g.mant(nb, p) * r.choice([1, -1]), r.randint(-60, 60) - nb)
+        c = r.random()
+        ints = [1, -1, 2, -2, 4, 8, 1024, 2 ** 70, -2 ** 33, 3, 6, 10, -7, 0]
+        if c < 0.45:
+            op = r.choice(BINOPS)
+            t = r.random()
+            if t < 0.45:
+                other = A_z(r.choice(ints))
+            elif t < 0.6:
+                other = A_d(r.choice([2.0, 0.5, -4.0, 1.0, 3.0, 0.1]))
+            else:
+                other = A_f(gen.mk(g.mant(r.choice([1, 1, 2, nb]), p) * r.choice([1, -1]), r.randint(-70, 70)))
+            args = [A_f(x), other] if r.random() < 0.6 else [other, A_f(x)]
+            if op == "div" and args[1][0] == "z" and args[1][1] == 0:
+                continue
+            lvl = r.choice(["oper", "oper", "ffun"])
+            out.append(case(op, lvl, args, p, "n" if lvl == "oper" else g.mode()))
+        elif c < 0.6:
+            op = r.choice(["neg", "pos", "abs"])
+            out.append(case(op, "oper", [A_f(x)], p, "n"))
+        elif c < 0.7:
+            out.append(case("sqrt", r.choice(["oper", "ffun"]), [A_f((0,) + x[1:])], p, "n"))
+        elif c < 0.8:
+            out.append(case("pow_int", r.choice(["oper", "ofun"]), [A_f(x), A_z(r.choice([1, 2, 3, -1, -2, 0, 5]))], p, "n"))
+        elif c < 0.9:
+            out.append(case(r.choice(["floor", "ceil", "nint", "frac"]), r.choice(["oper", "ffun"]), [A_f(x)], p, "n"))
+        else:
+            y = gen.mk(g.mant(nb, p) * r.choice([1, -1]), r.randint(-60, 60) - nb)
+            cc = case("mod", r.choice(["oper", "ofun"]), [A_f(x), A_f(y)], p, "n")
+            xn, xe = gen.value(x); yn, ye = gen.value(y)
+            emin = min(xe, ye)
+            cc["wit"] = [A_z((xn << (xe - emin)) // (yn << (ye - emin)))]
+            out.append(cc)
+    return out
+
+
+GROUPS = {"C10": group_c10, "C02": group_c02, "C03": group_c03, "C05": group_c05, "C06": group_c06, "C09": group_c09, "C39": group_c39}
 # operations whose results may legitimately carry more bits than the working precision (C10's exempt table)
 EXACT_OPS = {"ldexp", "frexp", "to_int", "mag", "isint", "nint_distance", "to_float", "hash_eq",
              "lt", "le", "gt", "ge", "eq", "ne"}
